@@ -1,6 +1,8 @@
 import PxModel.DrvWs
 import PxModel.DrvIdle
+import PxModel.DrvListen
 import PxModel.DrvDispatcher
+import PxModel.DrvStatic
 /-
   Line protocol driver: one operation per input line, one canonical result
   line per input line.  First token selects the model.
@@ -12,6 +14,8 @@ def dispatch (line : String) : String :=
   | "ws" :: args => Ws.drv args
   | "disp" :: args => Disp.drv args
   | "idle" :: args => Idle.drv args
+  | "listen" :: args => Listen.drv args
+  | "static" :: args => Static.drv args
   | _ => "bad-op"
 
 partial def loop (h : IO.FS.Stream) (out : IO.FS.Stream) : IO Unit := do
